@@ -18,7 +18,14 @@
 //              linearisation reads from the points (data gpt ...) and what it produced (res row / rhs / rej)
 //   parse <document on one line>
 //              DataParser only: prints the observations it built, record by record (data ob ...)
-// protocol:   xml <document on one line>  |  adjrt  |  adjfile <path>  |  gpt ...  |  lin ...  |  parse ...
+//   adjust[!] <algorithm>   (after xml; `!` = without the guard against finding G8) Model::update_adjustment() with that algorithm, then
+//              Model::write_xml_adjustment_results_points(); prints what they read from class Adj
+//              (data adj / data qxx / data ref) and what they computed: redundancy, aposteriori_sd, std_deviation,
+//              std_variance (res stat) and per written <point>, in the order written: dn de du, X/Y/Z correction,
+//              adjusted X Y Z, cnn..cuu, cxx..czz (res pt)
+//   adjrt also: the dump written with precision(16) (what gama-g3 --project-equations uses), read back, written
+//              again: `res adjrt16 stable|UNSTABLE <numbers> <changed by the round trip> <max relative change>`
+// protocol:   xml <document on one line>  |  adjrt  |  adjust <alg>  |  adjfile <path>  |  gpt ...  |  lin ...  |  parse ...
 #include <cstdio>
 #include <cstring>
 #include <cstdlib>
@@ -341,6 +348,108 @@ static AdjInputData* read_adj(const std::string& text, std::list<DataObject::Bas
   return res;
 }
 
+// every double of an adjustment input, in the order of the dump
+static void adj_numbers(const AdjInputData* d, std::vector<double>& v)
+{
+  if (const SparseMatrix<>* A = d->mat())
+    for (int k = 1; k <= A->rows(); k++) for (double* n = A->begin(k); n != A->end(k); ++n) v.push_back(*n);
+  if (const BlockDiagonal<>* c = d->cov())
+    for (int b = 1; b <= c->blocks(); b++) for (const double* m = c->begin(b); m != c->end(b); ++m) v.push_back(*m);
+  for (int i = 1; i <= int(d->rhs().dim()); i++) v.push_back(d->rhs()(i));
+}
+
+static std::string dump_text(const AdjInputData* d, int prec)
+{
+  std::ostringstream out;
+  out.precision(prec);
+  out << DataObject::Base::xml_begin();
+  d->write_xml(out);
+  out << DataObject::Base::xml_end();
+  return out.str();
+}
+
+// precision(16): rd (fmt x) = q x, fmt (q x) = fmt x, q (q x) = q x  — tested on every number of the dump
+static void roundtrip16(const AdjInputData* d)
+{
+  std::string t1 = dump_text(d, 16);
+  std::list<DataObject::Base*> o1, o2;
+  std::string e1, e2;
+  AdjInputData* q1 = read_adj(t1, o1, e1);
+  if (!q1 || !e1.empty()) { std::cout << "res adjrt16 UNSTABLE 0 0 0x0000000000000000 read-failed\n"; for (auto o : o1) delete o; return; }
+  std::string t2 = dump_text(q1, 16);
+  AdjInputData* q2 = read_adj(t2, o2, e2);
+  std::vector<double> a, b, c;
+  adj_numbers(d, a); adj_numbers(q1, b);
+  if (q2) adj_numbers(q2, c);
+  bool stable = (t1 == t2) && q2 && e2.empty() && b.size() == a.size() && c.size() == b.size();
+  long changed = 0; double rel = 0;
+  for (size_t i = 0; i < a.size() && i < b.size(); i++) {
+    if (std::memcmp(&a[i], &b[i], 8) != 0) { changed++; if (a[i] != 0) rel = std::max(rel, std::fabs((b[i] - a[i]) / a[i])); }
+    if (i < c.size() && std::memcmp(&b[i], &c[i], 8) != 0) stable = false;
+  }
+  std::cout << "res adjrt16 " << (stable ? "stable" : "UNSTABLE") << " " << a.size() << " " << changed << " " << hex(rel) << "\n";
+  for (auto o : o1) delete o;
+  for (auto o : o2) delete o;
+}
+
+// `guard`: do not enter update_adjustment when it would read adj->x()(0) (a point whose free height U has no
+// column: finding G8, notes/proposed/C19-height-index-zero.diff) — the sanitizer would abort the harness; the check
+// re-runs these cases one by one with `adjust!` (no guard), which shows the defect or, on a repaired tree, the result
+static void run_adjust(g3::Model* m, const std::string& alg, bool guard)
+{
+  if (guard)
+    for (auto i = m->points->begin(); i != m->points->end(); ++i)
+      if ((*i)->U.free() && (*i)->U.index() == 0) {
+        std::cout << "res adjust-skipped height-index-zero " << (*i)->name << "\n";
+        return;
+      }
+  if      (alg == "envelope") m->set_algorithm(Adj::envelope);
+  else if (alg == "gso")      m->set_algorithm(Adj::gso);
+  else if (alg == "svd")      m->set_algorithm(Adj::svd);
+  else if (alg == "cholesky") m->set_algorithm(Adj::cholesky);
+  else { std::cout << "bad-op\n"; return; }
+  std::ostringstream xml;
+  try {
+    m->update_adjustment();
+    m->write_xml_adjustment_results_points(xml);
+  }
+  catch (const Exception::string& s) { std::cout << "throw string " << s.str << "\n"; return; }
+  catch (const Exception::matvec& e) { std::cout << "throw matvec " << e.what() << "\n"; return; }
+  catch (...) { std::cout << "throw unknown\n"; return; }
+  const int n = m->dm_cols;
+  const Vec<>& x = m->adj->x();
+  std::cout << "data adj " << alg << " " << m->adj->defect() << " " << hex(m->adj->rtr()) << " " << n;
+  for (int i = 1; i <= n; i++) std::cout << " " << hex(x(i));
+  std::cout << "\n";
+  std::cout << "data qxx " << n;
+  for (int i = 1; i <= n; i++) for (int j = i; j <= n; j++) std::cout << " " << hex(m->adj->q_xx(i, j));
+  std::cout << "\n";
+  std::cout << "data ref " << (m->ref_stdev_apriori() ? 1 : 0) << "\n";
+  std::cout << "res stat " << m->redundancy << " " << hex(m->aposteriori_sd) << " " << hex(m->std_deviation) << " "
+            << hex(m->std_variance) << "\n";
+  // the points in the order they were written
+  std::string t = xml.str();
+  size_t pos = 0;
+  while ((pos = t.find("<id>", pos)) != std::string::npos) {
+    size_t e = t.find("</id>", pos);
+    if (e == std::string::npos) break;
+    std::istringstream in(t.substr(pos + 4, e - pos - 4));
+    std::string name; in >> name;
+    pos = e;
+    g3::Point* p = m->points->find(name);
+    if (!p) { std::cout << "res pt " << name << " missing\n"; continue; }
+    std::cout << "res pt " << name << " " << hex(p->N() * 1000) << " " << hex(p->E() * 1000) << " " << hex(p->U() * 1000) << " "
+              << hex(p->X.correction()) << " " << hex(p->Y.correction()) << " " << hex(p->Z.correction()) << " "
+              << hex(p->X()) << " " << hex(p->Y()) << " " << hex(p->Z()) << " " << hex(p->height.correction());
+    if (!p->fixed_position())
+      std::cout << " " << hex(p->cnn) << " " << hex(p->cne) << " " << hex(p->cnu) << " " << hex(p->cee) << " " << hex(p->ceu) << " "
+                << hex(p->cuu) << " " << hex(p->cxx) << " " << hex(p->cxy) << " " << hex(p->cxz) << " " << hex(p->cyy) << " "
+                << hex(p->cyz) << " " << hex(p->czz);
+    else std::cout << " fixed";
+    std::cout << "\n";
+  }
+}
+
 int main()
 {
   std::unique_ptr<g3::Model> model;
@@ -426,7 +535,10 @@ int main()
         std::cout << "res adjrt " << (same_adj(model->adj_input_data, back, why) ? "same" : "DIFFERENT " + why) << "\n";
       }
       for (auto o : objects) delete o;
+      roundtrip16(model->adj_input_data);
     }
+    else if (op == "adjust" && model) run_adjust(model.get(), arg, true);
+    else if (op == "adjust!" && model) run_adjust(model.get(), arg, false);
     else if (op == "adjfile") {
       std::ifstream f(arg);
       std::string text((std::istreambuf_iterator<char>(f)), std::istreambuf_iterator<char>());
